@@ -224,7 +224,7 @@ Lemma sync_to_add db files : snd (sync_missing db files) = filter (is_finished d
 Proof. reflexivity. Qed.
 
 (* ---------- ensure_completed with a cache whose entries are all verified ---------- *)
-Definition all_true (c : list (name * bool)) : Prop := forall k v, lookup c k = Some v -> v = true.
+Definition all_true (c : cache_t) : Prop := forall k e, lookup c k = Some e -> e = (true, true).
 
 Lemma all_true_nil : all_true [].
 Proof. intros k v H. discriminate. Qed.
@@ -236,9 +236,16 @@ Proof.
   - apply andb_true_r.
 Qed.
 
-Lemma all_true_set c h : all_true c -> all_true (set_key c h true).
+Lemma all_true_set c h : all_true c -> all_true (set_key c h (true, true)).
 Proof.
   intros A k v. rewrite lookup_set_key. destruct (bytes_eqb h k); [congruence | apply A].
+Qed.
+
+Lemma ensure_all_true d hs : forall db c, all_true c -> all_true (snd (ensure_completed d hs db c)).
+Proof.
+  induction hs as [|h r IH]; intros db c A; cbn [ensure_completed]; [exact A|].
+  destruct (is_blob_verified d c h); apply IH; [|exact A].
+  destruct (lookup c h); [exact A | apply all_true_set; exact A].
 Qed.
 
 Lemma ensure_status d hs : forall db c k, all_true c ->
@@ -267,6 +274,9 @@ Proof.
   destruct (sync_missing (db s) (listed (disk s))) as [db1 to_add].
   destruct (ensure_completed _ _ _ _). reflexivity.
 Qed.
+
+Lemma restart_with_disk s b : disk (restart_with s b) = disk s.
+Proof. unfold restart_with. rewrite restart_disk. reflexivity. Qed.
 
 Lemma restart_alive s : alive (restart s) = true.
 Proof.
@@ -427,7 +437,7 @@ Proof.
 Qed.
 
 (* ---------- histories ---------- *)
-Lemma get_blob_files_only d c h len : files_only d -> files_only (fst (fst (get_blob d c h len))).
+Lemma get_blob_files_only sv d c h len : files_only d -> files_only (fst (fst (get_blob sv d c h len))).
 Proof.
   unfold get_blob. intro F. destruct (lookup c h); [exact F|].
   destruct (lookup d h) as [[sz|]|]; try exact F.
@@ -447,8 +457,8 @@ Proof. induction l as [|x l IH]; intros d F; simpl; [exact F|]. apply IH. apply 
 Lemma delete_blob_files_only s h : files_only (disk s) -> files_only (disk (delete_blob s h)).
 Proof.
   unfold delete_blob. intro F.
-  destruct (lookup (cache s) h); cbn [disk]; destruct (is_file (disk s) h); try exact F;
-    apply files_only_remove; exact F.
+  destruct (lookup (cache s) h) as [[kd v]|]; cbn [disk fst]; [destruct kd; cbn [andb]|];
+    try exact F; destruct (is_file (disk s) h); try exact F; apply files_only_remove; exact F.
 Qed.
 
 Lemma delete_loop_files_only hs : forall s, files_only (disk s) -> files_only (disk (fst (delete_loop s hs))).
@@ -462,20 +472,20 @@ Proof.
   intros ND F. destruct o; try discriminate; cbn [step].
   - (* complete *) destruct (alive s); cbn [negb]; [|exact F]. unfold complete.
     destruct (valid_name h); cbn [negb]; [|exact F].
-    pose proof (get_blob_files_only (disk s) (cache s) h len F) as G.
-    destruct (get_blob (disk s) (cache s) h len) as [[d1 v] c1]. cbn [fst] in G.
-    destruct v; [exact G|]. destruct (is_file d1 h); [exact G|]. destruct (len =? 0); [exact G|].
-    unfold blob_completed. cbn [fst disk]. apply files_only_write. exact G.
+    pose proof (get_blob_files_only (save s) (disk s) (cache s) h len F) as G.
+    destruct (get_blob (save s) (disk s) (cache s) h len) as [[d1 [kd v]] c1]. cbn [fst snd] in *.
+    destruct v; [exact G|]. destruct (kd && is_file d1 h); [exact G|]. destruct (len =? 0); [exact G|].
+    destruct kd; unfold blob_completed, buffer_completed; cbn [fst disk]; [apply files_only_write|]; exact G.
   - (* touch *) destruct (alive s); cbn [negb]; [|exact F]. unfold touch.
     destruct (valid_name h); cbn [negb]; [|exact F].
-    pose proof (get_blob_files_only (disk s) (cache s) h len F) as G.
-    destruct (get_blob (disk s) (cache s) h len) as [[d1 v] c1]. exact G.
+    pose proof (get_blob_files_only (save s) (disk s) (cache s) h len F) as G.
+    destruct (get_blob (save s) (disk s) (cache s) h len) as [[d1 e] c1]. exact G.
   - (* crash_write *) destruct (alive s); cbn [negb]; [|exact F]. unfold crash_write.
     destruct (valid_name h); cbn [negb]; [|exact F].
-    pose proof (get_blob_files_only (disk s) (cache s) h len F) as G.
-    destruct (get_blob (disk s) (cache s) h len) as [[d1 v] c1]. cbn [fst] in G.
-    destruct v; [exact G|]. destruct (is_file d1 h); [exact G|]. destruct (len =? 0); [exact G|].
-    cbn [fst disk]. apply files_only_write. exact G.
+    pose proof (get_blob_files_only (save s) (disk s) (cache s) h len F) as G.
+    destruct (get_blob (save s) (disk s) (cache s) h len) as [[d1 [kd v]] c1]. cbn [fst snd] in *.
+    destruct v; [exact G|]. destruct (kd && is_file d1 h); [exact G|]. destruct (len =? 0); [exact G|].
+    cbn [fst disk]. destruct kd; [apply files_only_write|]; exact G.
   - (* publish *) destruct (alive s); cbn [negb]; [|exact F]. unfold publish.
     destruct (negb _); [exact F|]. cbn [fst disk]. apply fold_create_blob_disk. exact F.
   - (* publish_crash *) destruct (alive s); cbn [negb]; [|exact F]. unfold publish_crash.
@@ -493,6 +503,7 @@ Proof.
   - (* ext_remove *) cbn [fst with_disk disk]. apply files_only_remove. exact F.
   - (* ext_db *) destruct st; cbn [fst with_db disk]; exact F.
   - (* restart *) cbn [fst]. rewrite restart_disk. exact F.
+  - (* restart with save *) cbn [fst]. rewrite restart_with_disk. exact F.
 Qed.
 
 Lemma run_files_only ops : forall s, forallb (fun o => negb (is_ext_dir o)) ops = true ->
@@ -612,7 +623,7 @@ Proof.
   - apply restart_completed_NoDup.
 Qed.
 
-Lemma get_blob_NoDup d c h len : NoDup (map fst d) -> NoDup (map fst (fst (fst (get_blob d c h len)))).
+Lemma get_blob_NoDup sv d c h len : NoDup (map fst d) -> NoDup (map fst (fst (fst (get_blob sv d c h len)))).
 Proof.
   unfold get_blob. intro F. destruct (lookup c h); [exact F|].
   destruct (lookup d h) as [[sz|]|]; try exact F.
@@ -641,9 +652,10 @@ Proof. induction l as [|x l IH]; intros db H; cbn [fold_left]; [exact H|]. apply
 Lemma delete_blob_unique s h : keys_unique s -> keys_unique (delete_blob s h).
 Proof.
   intros [Hd [Hb Hc]]. unfold delete_blob, keys_unique.
-  destruct (lookup (cache s) h); cbn [disk db completed]; (split; [|split]); try exact Hb; try exact Hc;
+  destruct (lookup (cache s) h) as [e|]; cbn [disk db completed]; (split; [|split]); try exact Hb; try exact Hc;
     try (destruct (is_file (disk s) h); [apply NoDup_remove_key|]; exact Hd).
-  unfold set_remove. apply NoDup_filter. exact Hc.
+  - destruct (fst e && is_file (disk s) h); [apply NoDup_remove_key|]; exact Hd.
+  - unfold set_remove. apply NoDup_filter. exact Hc.
 Qed.
 
 Lemma delete_loop_unique hs : forall s, keys_unique s -> keys_unique (fst (delete_loop s hs)).
@@ -652,30 +664,34 @@ Proof.
   destruct (valid_name h); [|exact K]. apply IH. apply delete_blob_unique. exact K.
 Qed.
 
+Lemma restart_with_keys_unique s b : keys_unique s -> keys_unique (restart_with s b).
+Proof. intro K. unfold restart_with. apply restart_keys_unique. exact K. Qed.
+
 Lemma step_keys_unique s o : keys_unique s -> keys_unique (fst (step s o)).
 Proof.
   intro K. pose proof K as [Hd [Hb Hc]]. destruct o; cbn [step].
   - destruct (alive s); cbn [negb]; [|exact K]. unfold complete.
     destruct (valid_name h); cbn [negb]; [|exact K].
-    pose proof (get_blob_NoDup (disk s) (cache s) h len Hd) as G.
-    destruct (get_blob (disk s) (cache s) h len) as [[d1 v] c1]. cbn [fst] in G.
-    assert (K1 : forall c a, keys_unique (mkState d1 (db s) (completed s) c a)) by (intros; split; [|split]; assumption).
-    destruct v; [apply K1|]. destruct (is_file d1 h); [apply K1|]. destruct (len =? 0); [apply K1|].
-    unfold blob_completed, keys_unique. cbn [fst disk db completed].
-    split; [apply NoDup_write_file; exact G|]. split; [apply NoDup_db_add; exact Hb | apply NoDup_set_add; exact Hc].
+    pose proof (get_blob_NoDup (save s) (disk s) (cache s) h len Hd) as G.
+    destruct (get_blob (save s) (disk s) (cache s) h len) as [[d1 [kd v]] c1]. cbn [fst snd] in *.
+    assert (K1 : forall c a sv, keys_unique (mkState d1 (db s) (completed s) c a sv)) by (intros; split; [|split]; assumption).
+    destruct v; [apply K1|]. destruct (kd && is_file d1 h); [apply K1|]. destruct (len =? 0); [apply K1|].
+    destruct kd; unfold blob_completed, buffer_completed, keys_unique; cbn [fst disk db completed].
+    + split; [apply NoDup_write_file; exact G|]. split; [apply NoDup_db_add; exact Hb | apply NoDup_set_add; exact Hc].
+    + split; [exact G|]. split; [apply NoDup_db_add; exact Hb | exact Hc].
   - destruct (alive s); cbn [negb]; [|exact K]. unfold touch.
     destruct (valid_name h); cbn [negb]; [|exact K].
-    pose proof (get_blob_NoDup (disk s) (cache s) h len Hd) as G.
-    destruct (get_blob (disk s) (cache s) h len) as [[d1 v] c1]. cbn [fst] in G.
+    pose proof (get_blob_NoDup (save s) (disk s) (cache s) h len Hd) as G.
+    destruct (get_blob (save s) (disk s) (cache s) h len) as [[d1 e] c1]. cbn [fst] in G.
     split; [|split]; assumption.
   - destruct (alive s); cbn [negb]; [|exact K]. unfold crash_write.
     destruct (valid_name h); cbn [negb]; [|exact K].
-    pose proof (get_blob_NoDup (disk s) (cache s) h len Hd) as G.
-    destruct (get_blob (disk s) (cache s) h len) as [[d1 v] c1]. cbn [fst] in G.
-    assert (K1 : forall c a, keys_unique (mkState d1 (db s) (completed s) c a)) by (intros; split; [|split]; assumption).
-    destruct v; [apply K1|]. destruct (is_file d1 h); [apply K1|]. destruct (len =? 0); [apply K1|].
+    pose proof (get_blob_NoDup (save s) (disk s) (cache s) h len Hd) as G.
+    destruct (get_blob (save s) (disk s) (cache s) h len) as [[d1 [kd v]] c1]. cbn [fst snd] in *.
+    assert (K1 : forall c a sv, keys_unique (mkState d1 (db s) (completed s) c a sv)) by (intros; split; [|split]; assumption).
+    destruct v; [apply K1|]. destruct (kd && is_file d1 h); [apply K1|]. destruct (len =? 0); [apply K1|].
     unfold keys_unique. cbn [fst disk db completed].
-    split; [apply NoDup_write_file; exact G|]. split; [exact Hb | constructor].
+    split; [destruct kd; [apply NoDup_write_file|]; exact G|]. split; [exact Hb | constructor].
   - destruct (alive s); cbn [negb]; [|exact K]. unfold publish.
     destruct (negb _); [exact K|]. cbn [fst].
     pose proof (fold_create_blob_unique (hs ++ [sd]) s K) as [Gd [Gb Gc]].
@@ -706,6 +722,7 @@ Proof.
     + split; [exact Hd|]. split; [apply NoDup_update, NoDup_insert_ignore; exact Hb | exact Hc].
     + split; [exact Hd|]. split; [unfold db_delete; apply NoDup_remove_key; exact Hb | exact Hc].
   - cbn [fst]. apply restart_keys_unique. exact K.
+  - cbn [fst]. apply restart_with_keys_unique. exact K.
 Qed.
 
 Lemma run_keys_unique ops : forall s, keys_unique s -> keys_unique (run s ops).
@@ -719,13 +736,18 @@ Proof. apply run_keys_unique. repeat split; constructor. Qed.
 (* ---------- between restarts: API operations alone keep every blob file recorded ---------- *)
 Definition is_api_op (o : op) : bool :=
   match o with
-  | OComplete _ _ | OTouch _ _ | OPublish _ _ | ODelete _ _ | OStreamDelete _ _ | ORestart => true
+  | OComplete _ _ | OTouch _ _ | OPublish _ _ | ODelete _ _ | OStreamDelete _ _ | ORestart | ORestartSave _ => true
   | _ => false
   end.
 
+(* a cached in-memory blob (BlobBuffer) has no file of its name *)
+Definition buffers_fileless (s : state) : Prop :=
+  forall k e, lookup (cache s) k = Some e -> fst e = false -> is_file (disk s) k = false.
+
 Definition files_recorded (s : state) : Prop :=
   files_only (disk s) /\
-  forall h, valid_name h = true -> is_file (disk s) h = true -> db_status (db s) h = Some Finished.
+  (forall h, valid_name h = true -> is_file (disk s) h = true -> db_status (db s) h = Some Finished) /\
+  buffers_fileless s.
 
 Lemma is_file_set_key d h sz k : is_file (set_key d h (EFile sz)) k = if bytes_eqb h k then true else is_file d k.
 Proof. unfold is_file. rewrite lookup_set_key. destruct (bytes_eqb h k); reflexivity. Qed.
@@ -737,28 +759,37 @@ Lemma is_file_write_file d h sz k : files_only d ->
   is_file (write_file d h sz) k = if bytes_eqb h k then true else is_file d k.
 Proof. intro F. unfold write_file. rewrite (files_only_not_dir _ h F). apply is_file_set_key. Qed.
 
-Lemma get_blob_is_file d c h len k :
-  is_file (fst (fst (get_blob d c h len))) k = true -> is_file d k = true.
+(* get_blob: files only disappear; the entry returned is the one cached afterwards; a fresh buffer has no file *)
+Lemma get_blob_spec sv d c h len d1 e c1 : get_blob sv d c h len = (d1, e, c1) ->
+  (forall k, is_file d1 k = true -> is_file d k = true) /\
+  lookup c1 h = Some e /\
+  (forall k, bytes_eqb h k = false -> lookup c1 k = lookup c k) /\
+  (lookup c h = None -> fst e = false -> is_file d1 h = false) /\
+  (lookup c h = Some e \/ lookup c h = None).
 Proof.
-  unfold get_blob. destruct (lookup c h); [auto|].
-  destruct (lookup d h) as [[sz|]|]; auto.
-  destruct ((len =? 0) || (len =? sz)); [auto|]. cbn [fst]. rewrite is_file_remove_key.
-  destruct (bytes_eqb h k); [discriminate | auto].
+  unfold get_blob. destruct (lookup c h) as [e0|] eqn:L.
+  - intro H. inversion H. subst. repeat split; auto. discriminate.
+  - destruct (lookup d h) as [[sz|]|] eqn:D.
+    + destruct ((len =? 0) || (len =? sz)); intro H; inversion H; subst; clear H.
+      * split; [auto|]. split; [rewrite lookup_set_key, bytes_eqb_refl; reflexivity|].
+        split; [intros k Hk; rewrite lookup_set_key, Hk; reflexivity|]. split; [discriminate | auto].
+      * split.
+        { intros k. rewrite is_file_remove_key. destruct (bytes_eqb h k); [discriminate | auto]. }
+        split; [rewrite lookup_set_key, bytes_eqb_refl; reflexivity|].
+        split; [intros k Hk; rewrite lookup_set_key, Hk; reflexivity|]. split; [discriminate | auto].
+    + intro H; inversion H; subst; clear H.
+      split; [auto|]. split; [rewrite lookup_set_key, bytes_eqb_refl; reflexivity|].
+      split; [intros k Hk; rewrite lookup_set_key, Hk; reflexivity|].
+      split; [|auto]. intros _ _. unfold is_file. rewrite D. reflexivity.
+    + intro H; inversion H; subst; clear H.
+      split; [auto|]. split; [rewrite lookup_set_key, bytes_eqb_refl; reflexivity|].
+      split; [intros k Hk; rewrite lookup_set_key, Hk; reflexivity|].
+      split; [|auto]. intros _ _. unfold is_file. rewrite D. reflexivity.
 Qed.
 
-Lemma create_blob_recorded s hl : valid_name (fst hl) = true -> files_recorded s -> files_recorded (create_blob s hl).
-Proof.
-  intros V [F R]. unfold create_blob, blob_completed, files_recorded. cbn [disk db].
-  split; [apply files_only_write; exact F|]. intros k Vk. rewrite is_file_write_file by exact F.
-  rewrite status_add_finished. destruct (bytes_eqb (fst hl) k); [reflexivity | apply R; exact Vk].
-Qed.
-
-Lemma fold_create_blob_recorded l : forall s, forallb (fun hl => valid_name (fst hl)) l = true ->
-  files_recorded s -> files_recorded (fold_left create_blob l s).
-Proof.
-  induction l as [|x l IH]; intros s V R; cbn [fold_left]; [exact R|].
-  cbn [forallb] in V. apply andb_true_iff in V as [V1 V2]. apply IH; [exact V2|]. apply create_blob_recorded; assumption.
-Qed.
+Lemma status_add_pending_finished db h k : db_status db k = Some Finished ->
+  db_status (db_add db h false) k = Some Finished.
+Proof. intro H. rewrite status_add_pending, H. reflexivity. Qed.
 
 Lemma fold_insert_pending_finished (l : list (name * N)) k : forall db, db_status db k = Some Finished ->
   db_status (fold_left (fun acc hl => db_insert_ignore acc (fst hl) Pending) l db) k = Some Finished.
@@ -767,32 +798,68 @@ Proof.
   apply IH. rewrite status_insert_ignore, H. reflexivity.
 Qed.
 
-Lemma delete_blob_is_file s h k :
+(* publish: the files of fresh hashes appear and are recorded; nothing else moves on disk; cache untouched *)
+Lemma fold_create_blob_spec l : forall s, files_only (disk s) ->
+  let s1 := fold_left create_blob l s in
+  files_only (disk s1) /\ cache s1 = cache s /\
+  (forall k, is_file (disk s1) k = (mem k (map fst l) || is_file (disk s) k)) /\
+  (forall k, db_status (db s1) k = if mem k (map fst l) then Some Finished else db_status (db s) k).
+Proof.
+  induction l as [|x l IH]; intros s F; cbn [fold_left map mem existsb].
+  - repeat split; auto.
+  - assert (F1 : files_only (disk (create_blob s x)))
+      by (unfold create_blob, blob_completed; cbn [disk]; apply files_only_write; exact F).
+    destruct (IH _ F1) as [G [C [D B]]]. split; [exact G|]. split; [rewrite C; reflexivity|]. split.
+    + intro k. rewrite D. unfold create_blob, blob_completed. cbn [disk]. rewrite is_file_write_file by exact F.
+      fold (mem k (map fst l)). rewrite (beq_sym k (fst x)).
+      destruct (bytes_eqb (fst x) k); destruct (mem k (map fst l)); reflexivity.
+    + intro k. rewrite B. unfold create_blob, blob_completed. cbn [db]. rewrite status_add_finished.
+      fold (mem k (map fst l)). rewrite (beq_sym k (fst x)).
+      destruct (bytes_eqb (fst x) k); destruct (mem k (map fst l)); reflexivity.
+Qed.
+
+Lemma delete_blob_is_file s h k : buffers_fileless s ->
   is_file (disk (delete_blob s h)) k = if bytes_eqb h k then false else is_file (disk s) k.
 Proof.
-  unfold delete_blob. destruct (lookup (cache s) h); cbn [disk]; destruct (is_file (disk s) h) eqn:E;
-    try rewrite is_file_remove_key; destruct (bytes_eqb h k) eqn:B; try reflexivity;
-    apply bytes_eqb_eq in B; subst; exact E.
+  intro J. unfold delete_blob. destruct (lookup (cache s) h) as [[kd v]|] eqn:L; cbn [disk fst].
+  - destruct kd; cbn [andb].
+    + destruct (is_file (disk s) h) eqn:E; try rewrite is_file_remove_key; destruct (bytes_eqb h k) eqn:B;
+        try reflexivity; apply bytes_eqb_eq in B; subst; exact E.
+    + destruct (bytes_eqb h k) eqn:B; [|reflexivity]. apply bytes_eqb_eq in B. subst.
+      apply (J _ _ L). reflexivity.
+  - destruct (is_file (disk s) h) eqn:E; try rewrite is_file_remove_key; destruct (bytes_eqb h k) eqn:B;
+      try reflexivity; apply bytes_eqb_eq in B; subst; exact E.
 Qed.
 
 Lemma delete_blob_db s h : db (delete_blob s h) = db s.
 Proof. unfold delete_blob. destruct (lookup (cache s) h); reflexivity. Qed.
 
-Lemma delete_loop_spec hs : forall s s1 ok, delete_loop s hs = (s1, ok) ->
-  db s1 = db s /\
+Lemma delete_blob_fileless s h : buffers_fileless s -> buffers_fileless (delete_blob s h).
+Proof.
+  intros J k e L Hk. pose proof (delete_blob_is_file s h k J) as D.
+  assert (L0 : lookup (cache s) k = Some e).
+  { unfold delete_blob in L. destruct (lookup (cache s) h); cbn [cache] in L; [|exact L].
+    rewrite lookup_remove_key in L. destruct (bytes_eqb h k); [discriminate | exact L]. }
+  rewrite D. destruct (bytes_eqb h k); [reflexivity | apply (J _ _ L0 Hk)].
+Qed.
+
+Lemma delete_loop_spec hs : forall s s1 ok, buffers_fileless s -> delete_loop s hs = (s1, ok) ->
+  db s1 = db s /\ buffers_fileless s1 /\
   (forall k, is_file (disk s1) k = true -> is_file (disk s) k = true) /\
   (ok = true -> forall k, mem k hs = true -> is_file (disk s1) k = false).
 Proof.
-  induction hs as [|h r IH]; intros s s1 ok H; cbn [delete_loop] in H.
-  - inversion H. subst. split; [reflexivity|]. split; [auto|]. intros _ k M. discriminate.
+  induction hs as [|h r IH]; intros s s1 ok J H; cbn [delete_loop] in H.
+  - inversion H. subst. split; [reflexivity|]. split; [exact J|]. split; [auto|]. intros _ k M. discriminate.
   - destruct (valid_name h).
-    + apply IH in H as [D [M1 M2]]. rewrite delete_blob_db in D. split; [exact D|]. split.
-      * intros k K. apply M1 in K. rewrite delete_blob_is_file in K. destruct (bytes_eqb h k); [discriminate | exact K].
+    + apply IH in H as [D [J1 [M1 M2]]]; [|apply delete_blob_fileless; exact J].
+      rewrite delete_blob_db in D. split; [exact D|]. split; [exact J1|]. split.
+      * intros k K. apply M1 in K. rewrite delete_blob_is_file in K by exact J.
+        destruct (bytes_eqb h k); [discriminate | exact K].
       * intros O k M. cbn [mem existsb] in M. fold (mem k r) in M. apply orb_true_iff in M as [M|M].
-        -- destruct (is_file (disk s1) k) eqn:K; [|reflexivity]. apply M1 in K. rewrite delete_blob_is_file in K.
-           rewrite beq_sym, M in K. discriminate.
+        -- destruct (is_file (disk s1) k) eqn:K; [|reflexivity]. apply M1 in K.
+           rewrite delete_blob_is_file in K by exact J. rewrite beq_sym, M in K. discriminate.
         -- apply M2; assumption.
-    + inversion H. subst. split; [reflexivity|]. split; [auto|]. discriminate.
+    + inversion H. subst. split; [reflexivity|]. split; [exact J|]. split; [auto|]. discriminate.
 Qed.
 
 Lemma status_delete_all hs k : forall db,
@@ -806,61 +873,114 @@ Qed.
 Lemma mem_app k a b : mem k (a ++ b) = mem k a || mem k b.
 Proof. unfold mem. apply existsb_app. Qed.
 
+Lemma restart_cache_all_true s : all_true (cache (restart s)).
+Proof.
+  unfold restart, setup, wipe. cbn [disk db completed cache].
+  destruct (sync_missing (db s) (listed (disk s))) as [db1 to_add].
+  pose proof (ensure_all_true (disk s) (filter (fun f => negb (mem f to_add)) (listed (disk s))) db1 [] all_true_nil) as A.
+  destruct (ensure_completed _ _ _ _). exact A.
+Qed.
+
+(* after a start the invariant holds whatever happened before, provided no directory was planted *)
+Lemma restart_files_recorded s : files_only (disk s) -> files_recorded (restart s).
+Proof.
+  intro F. split; [rewrite restart_disk; exact F|]. split.
+  - intros k Vk K. rewrite restart_disk in K. apply files_finished; assumption.
+  - intros k e L Hk. rewrite (restart_cache_all_true s _ _ L) in Hk. discriminate.
+Qed.
+
 Lemma step_files_recorded s o : is_api_op o = true -> files_recorded s -> files_recorded (fst (step s o)).
 Proof.
-  intros A I. pose proof I as [F R]. destruct o; try discriminate; cbn [step].
+  intros A I. pose proof I as [F [R J]]. destruct o; try discriminate; cbn [step].
   - (* complete *) destruct (alive s); cbn [negb]; [|exact I]. unfold complete.
     destruct (valid_name h) eqn:V; cbn [negb]; [|exact I].
-    pose proof (get_blob_files_only (disk s) (cache s) h len F) as G.
-    pose proof (get_blob_is_file (disk s) (cache s) h len) as M.
-    destruct (get_blob (disk s) (cache s) h len) as [[d1 v] c1]. cbn [fst] in G, M.
-    assert (I1 : forall c a, files_recorded (mkState d1 (db s) (completed s) c a)).
-    { intros c a. split; [exact G|]. cbn [disk db]. intros k Vk K. apply R; [exact Vk | apply M; exact K]. }
-    destruct v; [apply I1|]. destruct (is_file d1 h); [apply I1|]. destruct (len =? 0); [apply I1|].
-    unfold blob_completed, files_recorded. cbn [fst disk db].
-    split; [apply files_only_write; exact G|]. intros k Vk. rewrite is_file_write_file by exact G.
-    rewrite status_add_finished. destruct (bytes_eqb h k); [reflexivity|]. intro K. apply R; [exact Vk | apply M; exact K].
+    pose proof (get_blob_files_only (save s) (disk s) (cache s) h len F) as G.
+    pose proof (get_blob_spec (save s) (disk s) (cache s) h len) as S.
+    destruct (get_blob (save s) (disk s) (cache s) h len) as [[d1 [kd v]] c1]. cbn [fst snd] in G.
+    specialize (S d1 (kd, v) c1 eq_refl) as [M [Lh [Lo [Fr Hit]]]]. cbn [fst snd] in *.
+    assert (J1 : forall k e, lookup c1 k = Some e -> fst e = false -> is_file d1 k = false).
+    { intros k e L Hk. destruct (bytes_eqb h k) eqn:B.
+      - apply bytes_eqb_eq in B. subst k. rewrite Lh in L. inversion L. subst e. cbn [fst] in Hk. subst kd.
+        destruct Hit as [Hit|Hit].
+        + destruct (is_file d1 h) eqn:K; [|reflexivity]. apply M in K. rewrite (J _ _ Hit eq_refl) in K. discriminate.
+        + apply Fr; [exact Hit | reflexivity].
+      - rewrite (Lo _ B) in L. destruct (is_file d1 k) eqn:K; [|reflexivity]. apply M in K.
+        rewrite (J _ _ L Hk) in K. discriminate. }
+    assert (I1 : forall a sv, files_recorded (mkState d1 (db s) (completed s) c1 a sv)).
+    { intros a sv. split; [exact G|]. split; [|exact J1]. cbn [disk db]. intros k Vk K. apply R; [exact Vk | apply M; exact K]. }
+    destruct v; [apply I1|]. destruct (kd && is_file d1 h) eqn:Bz; [apply I1|]. destruct (len =? 0); [apply I1|].
+    destruct kd; unfold blob_completed, buffer_completed, files_recorded, buffers_fileless; cbn [fst disk db cache].
+    + split; [apply files_only_write; exact G|]. split.
+      * intros k Vk. rewrite is_file_write_file by exact G.
+        rewrite status_add_finished. destruct (bytes_eqb h k); [reflexivity|]. intro K. apply R; [exact Vk | apply M; exact K].
+      * intros k e. rewrite lookup_set_key. rewrite is_file_write_file by exact G.
+        destruct (bytes_eqb h k) eqn:B.
+        -- intro L. inversion L. subst e. discriminate.
+        -- intros L Hk. apply (J1 _ _ L Hk).
+    + split; [exact G|]. split.
+      * intros k Vk K. apply status_add_pending_finished. apply R; [exact Vk | apply M; exact K].
+      * intros k e. rewrite lookup_set_key. destruct (bytes_eqb h k) eqn:B.
+        -- intros _ _. apply bytes_eqb_eq in B. subst k. apply (J1 _ _ Lh eq_refl).
+        -- intros L Hk. apply (J1 _ _ L Hk).
   - (* touch *) destruct (alive s); cbn [negb]; [|exact I]. unfold touch.
     destruct (valid_name h); cbn [negb]; [|exact I].
-    pose proof (get_blob_files_only (disk s) (cache s) h len F) as G.
-    pose proof (get_blob_is_file (disk s) (cache s) h len) as M.
-    destruct (get_blob (disk s) (cache s) h len) as [[d1 v] c1]. cbn [fst] in G, M.
-    split; [exact G|]. cbn [fst disk db]. intros k Vk K. apply R; [exact Vk | apply M; exact K].
+    pose proof (get_blob_files_only (save s) (disk s) (cache s) h len F) as G.
+    pose proof (get_blob_spec (save s) (disk s) (cache s) h len) as S.
+    destruct (get_blob (save s) (disk s) (cache s) h len) as [[d1 [kd v]] c1]. cbn [fst snd] in G.
+    specialize (S d1 (kd, v) c1 eq_refl) as [M [Lh [Lo [Fr Hit]]]]. cbn [fst snd] in *.
+    split; [exact G|]. split; unfold buffers_fileless; cbn [fst disk db cache].
+    + intros k Vk K. apply R; [exact Vk | apply M; exact K].
+    + intros k e L Hk. destruct (bytes_eqb h k) eqn:B.
+      * apply bytes_eqb_eq in B. subst k. rewrite Lh in L. inversion L. subst e. cbn [fst] in Hk. subst kd.
+        destruct Hit as [Hit|Hit].
+        -- destruct (is_file d1 h) eqn:K; [|reflexivity]. apply M in K. rewrite (J _ _ Hit eq_refl) in K. discriminate.
+        -- apply Fr; [exact Hit | reflexivity].
+      * rewrite (Lo _ B) in L. destruct (is_file d1 k) eqn:K; [|reflexivity]. apply M in K.
+        rewrite (J _ _ L Hk) in K. discriminate.
   - (* publish *) destruct (alive s); cbn [negb]; [|exact I]. unfold publish.
     destruct (forallb _ _ && _) eqn:P; cbn [negb]; [|exact I].
     apply andb_true_iff in P as [P _].
-    assert (V : forallb (fun hl : name * N => valid_name (fst hl)) (hs ++ [sd]) = true).
-    { apply forallb_forall. intros x Hx. rewrite forallb_forall in P. specialize (P x Hx).
-      apply andb_true_iff in P as [P _]. unfold fresh in P.
-      apply andb_true_iff in P as [P _]. apply andb_true_iff in P as [P _]. exact P. }
-    pose proof (fold_create_blob_recorded _ s V I) as [F1 R1].
-    split; [exact F1|]. cbn [fst disk db]. intros k Vk K. apply fold_insert_pending_finished. apply R1; assumption.
+    pose proof (fold_create_blob_spec (hs ++ [sd]) s F) as [F1 [C1 [D1 B1]]].
+    assert (Fresh : forall k, mem k (map fst (hs ++ [sd])) = true -> valid_name k = true /\ lookup (cache s) k = None).
+    { intros k Mk. apply mem_In in Mk. apply in_map_iff in Mk as [x [Ex Hx]]. subst k.
+      rewrite forallb_forall in P. specialize (P x Hx). apply andb_true_iff in P as [P _]. unfold fresh in P.
+      apply andb_true_iff in P as [P P3]. apply andb_true_iff in P as [P1 P2].
+      split; [exact P1|]. destruct (lookup (cache s) (fst x)); [discriminate | reflexivity]. }
+    split; [exact F1|]. split; unfold buffers_fileless; cbn [fst disk db cache].
+    + intros k Vk K. apply fold_insert_pending_finished. rewrite B1. rewrite D1 in K.
+      destruct (mem k (map fst (hs ++ [sd]))); [reflexivity|]. apply R; [exact Vk | exact K].
+    + intros k e. rewrite lookup_set_key. destruct (bytes_eqb (fst sd) k) eqn:B.
+      * intro L. inversion L. subst e. discriminate.
+      * rewrite C1. intros L Hk. rewrite D1.
+        destruct (mem k (map fst (hs ++ [sd]))) eqn:Mk.
+        -- destruct (Fresh k Mk) as [_ N]. rewrite N in L. discriminate.
+        -- apply (J _ _ L Hk).
   - (* delete *) destruct (alive s); cbn [negb]; [|exact I]. unfold delete_blobs.
     pose proof (delete_loop_files_only hs s F) as G.
     pose proof (delete_loop_spec hs s) as S.
-    destruct (delete_loop s hs) as [s1 ok]. cbn [fst] in G. specialize (S s1 ok eq_refl) as [D [M1 M2]].
+    destruct (delete_loop s hs) as [s1 ok]. cbn [fst] in G. specialize (S s1 ok J eq_refl) as [D [J1 [M1 M2]]].
     assert (I1 : files_recorded s1).
-    { split; [exact G|]. intros k Vk K. rewrite D. apply R; [exact Vk | apply M1; exact K]. }
+    { split; [exact G|]. split; [|exact J1]. intros k Vk K. rewrite D. apply R; [exact Vk | apply M1; exact K]. }
     destruct ok; cbn [negb]; [|exact I1]. destruct from_db; [|exact I1].
-    split; [exact G|]. cbn [fst disk db]. intros k Vk K. rewrite status_delete_all.
+    split; [exact G|]. split; [|exact J1]. cbn [fst disk db]. intros k Vk K. rewrite status_delete_all.
     destruct (mem k hs) eqn:Mk; [rewrite (M2 eq_refl k Mk) in K; discriminate|].
     rewrite D. apply R; [exact Vk | apply M1; exact K].
   - (* stream_delete *) destruct (alive s); cbn [negb]; [|exact I]. unfold stream_delete.
     pose proof (delete_loop_files_only (sd :: hs) s F) as G.
     pose proof (delete_loop_spec (sd :: hs) s) as S.
-    destruct (delete_loop s (sd :: hs)) as [s1 ok]. cbn [fst] in G. specialize (S s1 ok eq_refl) as [D [M1 M2]].
+    destruct (delete_loop s (sd :: hs)) as [s1 ok]. cbn [fst] in G. specialize (S s1 ok J eq_refl) as [D [J1 [M1 M2]]].
     assert (I1 : files_recorded s1).
-    { split; [exact G|]. intros k Vk K. rewrite D. apply R; [exact Vk | apply M1; exact K]. }
+    { split; [exact G|]. split; [|exact J1]. intros k Vk K. rewrite D. apply R; [exact Vk | apply M1; exact K]. }
     destruct ok; cbn [negb]; [|exact I1].
-    split; [exact G|]. cbn [fst disk db]. intros k Vk K. rewrite status_delete_all.
+    split; [exact G|]. split; [|exact J1]. cbn [fst disk db]. intros k Vk K. rewrite status_delete_all.
     destruct (mem k (hs ++ [sd])) eqn:Mk.
     + assert (Mk' : mem k (sd :: hs) = true).
       { rewrite mem_app in Mk. cbn [mem existsb] in *. fold (mem k hs) in *. rewrite orb_false_r in Mk.
         rewrite orb_comm. exact Mk. }
       rewrite (M2 eq_refl k Mk') in K. discriminate.
     + rewrite D. apply R; [exact Vk | apply M1; exact K].
-  - (* restart *) cbn [fst]. split; [rewrite restart_disk; exact F|].
-    intros k Vk K. rewrite restart_disk in K. apply files_finished; assumption.
+  - (* restart *) cbn [fst]. apply restart_files_recorded. exact F.
+  - (* restart with save *) cbn [fst]. unfold restart_with. apply restart_files_recorded. exact F.
 Qed.
 
 Lemma run_files_recorded ops : forall s, forallb is_api_op ops = true -> files_recorded s -> files_recorded (run s ops).
@@ -869,9 +989,23 @@ Proof.
   cbn [forallb] in H. apply andb_true_iff in H as [H1 H2]. apply IH; [exact H2|]. apply step_files_recorded; assumption.
 Qed.
 
-(* after a start the invariant holds whatever happened before, provided no directory was planted *)
-Lemma restart_files_recorded s : files_only (disk s) -> files_recorded (restart s).
+(* config.save_blobs plays no part in what a start does to directory, table and completed set *)
+Lemma restart_with_same s b :
+  disk (restart_with s b) = disk (restart s) /\ db (restart_with s b) = db (restart s) /\
+  completed (restart_with s b) = completed (restart s).
 Proof.
-  intro F. split; [rewrite restart_disk; exact F|]. intros k Vk K. rewrite restart_disk in K.
-  apply files_finished; assumption.
+  unfold restart_with, restart, setup, wipe. cbn [disk db completed cache save].
+  destruct (sync_missing (db s) (listed (disk s))) as [db1 to_add].
+  destruct (ensure_completed _ _ _ _). cbn [disk db completed]. auto.
+Qed.
+
+(* the plan's two headline statements, assembled *)
+Lemma setup_idempotent s : files_only (disk s) ->
+  disk (restart (restart s)) = disk s /\
+  (forall h, In h (completed (restart (restart s))) <-> valid_name h = true /\ is_file (disk s) h = true) /\
+  (forall h, db_status (db (restart (restart s))) h = db_status (db (restart s)) h).
+Proof.
+  intro F. split; [rewrite !restart_disk; reflexivity|]. split.
+  - intro h. apply second_restart_exact. exact F.
+  - intro h. apply restart_db_idempotent.
 Qed.
